@@ -608,5 +608,5 @@ func famC09Huge(w *World, spec *RunSpec, res *RunResult) {
 
 func init() {
 	register("C09", Family{Name: "codec", Weight: 1500, Run: famC09})
-	register("C09", Family{Name: "size-limit", Weight: 1, Run: famC09Huge})
+	register("C09", Family{Name: "size-limit", Weight: 150, Cost: 150000, Run: famC09Huge})
 }
